@@ -303,12 +303,13 @@ HDR = ("From LSP Require Import Base MM ValidB Strict.\nFrom Gen Require Import 
 
 
 def shard_text(items, base):
-    """items: [(cls, label, json)] -> Coq source evaluating vector_code on each; prints [(global index, code)] for code <> 0."""
+    """items: [(cls, label, json)] -> Coq source evaluating vector_code on each; prints [(index within the shard, code)] for
+    code <> 0 (indexes stay small: a large unary nat overflows the stack when read back from the VM)."""
     S = StrTab()
     rows = ["Definition c%d := vector_code mm %d %s %s %s." % (i, FUEL, S(cls), "true" if lab else "false", cj_tab(j, S))
             for i, (cls, lab, j) in enumerate(items)]
     return (HDR + S.defs() + "\n".join(rows) + "\nDefinition codes : list nat := [%s].\n" % "; ".join("c%d" % i for i in range(len(items)))
-            + "Definition bad := filter (fun p => negb (Nat.eqb (snd p) 0)) (combine (seq %d (length codes)) codes).\n" % base
+            + "Definition bad := filter (fun p => negb (Nat.eqb (snd p) 0)) (combine (seq 0 (length codes)) codes).\n"
             + "Eval vm_compute in bad.\nEval vm_compute in (length bad, length codes).\n"
             + "(* kernel-checked when every label of the shard agrees with the verified checker *)\n"
             + "Lemma shard_agrees : bad = []. Proof. vm_compute. reflexivity. Qed.\n")
@@ -361,7 +362,7 @@ def eval_shard(task):
         m = re.search(r"=\s*(\[.*?\])\s*:\s*list \(nat \* nat\)", out, re.S)
         if not m:
             raise RuntimeError("shard %s: no verdict list in the coqc output (rc=%d): %s" % (name, rc, (out + err)[-1200:]))
-        codes = {int(a): int(b) for a, b in re.findall(r"\(\s*(\d+)\s*,\s*(\d+)\s*\)", m.group(1))}
+        codes = {base + int(a): int(b) for a, b in re.findall(r"\(\s*(\d+)\s*,\s*(\d+)\s*\)", m.group(1))}
         m2 = re.search(r"=\s*\(\s*(\d+)\s*,\s*(\d+)\s*\)\s*:\s*nat \* nat", out)
         if not m2 or int(m2.group(1)) != len(codes) or int(m2.group(2)) != len(items):
             raise RuntimeError("shard %s: printed verdict list is incomplete (%d parsed, coq says %s)" % (name, len(codes), m2.groups() if m2 else None))
